@@ -516,7 +516,7 @@ func (rule *RuleAction) checkDockerAction(uri string, exec *ExecAction) {
 			"URI for Docker container %q is invalid: %s (tag=%s)",
 			uri,
 			err.Error(),
-			tag,
+			singleLine(tag), // The tag is a part of the input as it is. Keep the message in a single line
 		)
 	}
 
